@@ -36,6 +36,12 @@ SEL = "tx3_resolver::inputs::select::InputSelector"
 SELP = "tx3_resolver::inputs::select::InputSelector::<'a, S>::"
 
 
+def _HELPERS(t, callee):
+    if callee["crate"] != "tx3_resolver" or callee.get("impl_trait") or callee.get("trait_default") or callee.get("is_async"):
+        return False
+    return len(callee["blocks"]) <= 150
+
+
 def bodies_of(F, path):
     """the body to reason about and its closures (async: the coroutine body and the closures inside it)"""
     b = F.body(path)
@@ -148,6 +154,9 @@ def s_ignore(F, res):
     if not fields:
         raise BrokenCheck("InputSelector has no field that can remember taken refs")
     b, allb = bodies_of(F, SELP + "select_input")
+    # helper functions of the resolver crate are inlined (two levels): a candidate filter extracted into
+    # `fn candidate_refs(space, used)` is analysed as if it were written in place
+    b = mir.inline_calls(F, b, want=_HELPERS, depth=2)
     cfg = mir.CFG(b)
     du = mir.DefUse(b)
     acc = accesses(F, b, fields)
